@@ -67,6 +67,7 @@ var initAllow = map[string]bool{
 	"encoding/hex": true, "encoding/binary": true, "golang.org/x/sync/semaphore": true,
 	"golang.org/x/sync/errgroup": true, "google.golang.org/grpc/codes": true, "io/fs": true,
 	"internal/oserror": true, "path/filepath": true, "encoding/base64": true, "math/bits": true,
+	"github.com/abbot/go-http-auth": true, "net/textproto": true,
 	"slices": true, "maps": true, "cmp": true, "iter": true, "net/url": true,
 }
 
@@ -780,6 +781,15 @@ func init() {
 		"runtime.Gosched":     func(fr *frame, a []value) value { fr.i.yieldPoint("gosched"); return nil },
 		"runtime.GOMAXPROCS":  func(fr *frame, a []value) value { return 4 },
 		"runtime.NumCPU":      func(fr *frame, a []value) value { return 4 },
+		"runtime.NumGoroutine": func(fr *frame, a []value) value {
+			n := 0
+			for _, t := range fr.i.threads {
+				if !t.done {
+					n++
+				}
+			}
+			return n
+		},
 		"runtime.KeepAlive":   func(fr *frame, a []value) value { return nil },
 		"runtime.SetFinalizer": func(fr *frame, a []value) value { return nil },
 		"time.Sleep":          func(fr *frame, a []value) value { fr.i.yieldPoint("sleep"); return nil },
